@@ -157,10 +157,18 @@ pub fn minimise(def: &WorldDef, cfg: &Cfg, ops: &[Op], prop: &str, oracle: &str,
         let (fails, _) = execute(def, cfg, ops, env);
         same_class(&fails, prop, oracle)
     };
-    // cut the tail after the failing op
+    // cut the tail after the failing op (implicit teardown ops are made explicit first)
     {
         let (fails, _) = execute(def, &cfg, &ops, env);
         if let Some(f) = fails.iter().find(|f| f.prop == prop && f.oracle == oracle) {
+            if f.at_op >= ops.len() {
+                let extra = env.finish_ops.clone();
+                let mut cand = ops.clone();
+                cand.extend(extra.into_iter().take(f.at_op + 1 - ops.len()));
+                if test(&cfg, &cand, env, &mut used) {
+                    ops = cand;
+                }
+            }
             let cut = (f.at_op + 1).min(ops.len());
             let cand = ops[..cut].to_vec();
             if test(&cfg, &cand, env, &mut used) {
@@ -234,6 +242,20 @@ pub fn minimise(def: &WorldDef, cfg: &Cfg, ops: &[Op], prop: &str, oracle: &str,
             ops = cand;
         } else {
             i += 1;
+        }
+    }
+    // make the part of the implicit teardown that the violation needs explicit
+    {
+        let (fails, _) = execute(def, &cfg, &ops, env);
+        if let Some(f) = fails.iter().find(|f| f.prop == prop && f.oracle == oracle) {
+            if f.at_op >= ops.len() {
+                let extra = env.finish_ops.clone();
+                let mut cand = ops.clone();
+                cand.extend(extra.into_iter().take(f.at_op + 1 - ops.len()));
+                if test(&cfg, &cand, env, &mut used) {
+                    ops = cand;
+                }
+            }
         }
     }
     (cfg, ops)
